@@ -1049,10 +1049,15 @@ class Walker:
             if r[0] == "unknown":
                 raise AnalysisError("unresolved name %s at %s" % (".".join(chain), self.site(e)))
             s = st
-            if self.prog.resolve_name(self.mod, chain[0])[0] in ("pkg", "extmod", "repomod"):
+            outs = []
+            if chain[0] in self.mod.imports and len(chain) > 1:
                 s = st.copy()
-                s.ev("attrchain", self.site(e), tuple(chain), r)
-            return [(s, "val", self.resolution_term(r, rest, e))]
+                missing = self.eng.imports.check_chain(self.mod, chain)
+                s.ev("attrchain", self.site(e), tuple(chain), r, missing)
+                if missing is not None:
+                    self.rz(outs, st, e, "AttributeError", "submodule %s is used without being imported and is not in the static import closure of %s" % (missing, self.mod.name), [], origin="import-closure")
+            outs.append((s, "val", self.resolution_term(r, rest, e)))
+            return outs
         outs = []
         for s, k, b in self.expr(e.value, st):
             if k != "val":
